@@ -417,8 +417,12 @@ def run(ctx: Ctx) -> None:
     pp_ = m.method(pc, "_process_pseudo_instructions")
     loop = next((n for n in pp_.node.body if isinstance(n, ast.For)), None)
     al = {}
-    if loop is not None and isinstance(loop.target, ast.Tuple) and len(loop.target.elts) == 3:
-        al = {loop.target.elts[0].id: "N", loop.target.elts[1].id: "L", loop.target.elts[2].id: "E"}
+    ltgt = loop.target if loop is not None else None
+    if isinstance(ltgt, ast.Tuple) and len(ltgt.elts) == 2 and isinstance(ltgt.elts[1], ast.Tuple) and isinstance(loop.iter, ast.Call) \
+            and isinstance(loop.iter.func, ast.Name) and loop.iter.func.id == "enumerate":
+        ltgt = ltgt.elts[1]  # for i, (n, l, e) in enumerate(self.text)
+    if isinstance(ltgt, ast.Tuple) and len(ltgt.elts) == 3 and all(isinstance(x, ast.Name) for x in ltgt.elts):
+        al = {ltgt.elts[0].id: "N", ltgt.elts[1].id: "L", ltgt.elts[2].id: "E"}
     pr = Printer(m, pp_.params, al, canonical=True)
     n_idx = 0
     VAR = "P0.variables[E.variable.name]"
@@ -442,7 +446,7 @@ def run(ctx: Ctx) -> None:
                 if srcs[0] not in defs or "variables" not in ast.unparse(defs[srcs[0]]):
                     continue  # li: the source is the literal itself
                 n_idx += 1
-                got = pr.show(defs[srcs[0]])
+                got = pr.show(defs[srcs[0]]).replace(".get('variable')", ".variable")  # two spellings of the same named token
                 r.check(got in want, f"address#{n_idx}", pp_.loc(st),
                         f"the address of name[i] is `{Printer(m, pp_.params, al).show(defs[srcs[0]])}`; it must be "
                         "variables[name][0] + variables[name][1] * (index or 0)")
